@@ -6,6 +6,12 @@ Models (owned by other properties, used here unchanged): `Model.OMExpo` (`openme
 `Model.Validation`, `Model.Utils`.  The escape chains, name patterns, suffix tables and the exemplar limit are the ones
 re-extracted from the source on every run (`Generated.*`).
 
+"Timestamp equal" in every statement below means EQUAL TO THE NANOSECOND AFTER TRUNCATION: a plain-decimal float timestamp denotes its
+decimal text cut after the ninth fractional digit (that is all the wire format's `Timestamp` carries), so the parser's own
+truncation (`parts[1][:9]`) cannot make a difference by definition — a mutant that ROUNDS or mis-scales (harness mutation (b)) does.
+It is not Python equality: `Timestamp(1, 500000000) != 1.5` for `Timestamp.__eq__` / `Metric.__eq__`; the property compares the
+instant.
+
 Every theorem quantifies over ALL strings (no length bound).  Numbers are tokens: a value is exposed as
 `floatToGoString(repr(float(v)))` and read back by the parameters `pyInt`, `pyFloat`; the laws used are hypotheses
 (`ValTok`: `int()` refuses the token, `float()` reads it as `b`; `IntLaw`: `int()` on ASCII digit strings).  Timestamps are
@@ -231,11 +237,17 @@ theorem exemplar_quote_regression :
 /-- the parsed family the exposition of `fam` stands for: same name, help, type, unit; per sample what its line parses to -/
 def expFamily (P : Params) (fam : Family) : OFamily := ⟨fam.name, fam.doc, fam.typ, fam.unit, fam.samples.map (parsedOf P)⟩
 
-/-- the exposed content breaks none of the parser's rules: the rule layer of the parser — the per-sample checks
-(`preChecks`, grouping / timestamp / duplicate handling, `postChecks`) and the per-family checks of `build_metric`
-(name clashes, unit, histogram groups, `Metric()`'s own validation), run on the exposed VALUES (no text involved) — accepts
-every family and keeps every sample.  These are the checks C15 obliges the parser to make (NaN counters, negative sums, …): C04
-and C15 meet only on content that passes them.  An explicit decidable predicate. -/
+/-- the domain of the document-level theorem: CONTENT THE PARSER'S RULE LAYER ACCEPTS.  The rule layer of the parser — the
+per-sample checks (`preChecks`, grouping / timestamp / duplicate handling, `postChecks`) and the per-family checks of
+`build_metric` (name clashes, unit, histogram groups, `Metric()`'s own validation), run on the exposed VALUES (no text involved)
+— accepts every family and keeps every sample.  An explicit decidable predicate.
+Relation to C15: on this domain every C15 rule predicate is absent (`ruleClean_breaks_no_c15_rule`), so C04 and C15 never
+contradict each other.  The converse fails: the rule layer also enforces rules that are NOT among C15's — `_count` without `_sum`
+(F17, `count_without_sum_counterexample`), `_sum` without `_count`, `_sum` next to negative bounds, a negative `_gsum` next to
+non-negative bounds, `le="inf"` not spelled `+Inf`, a group resumed after another one, a series repeated at one timestamp
+(silently dropped).  Content of these kinds is expressible through the public API, breaks no C15 rule, and does not round-trip:
+the known gap between "breaks no C15 rule" and `RuleClean` (harness signatures `C04:parser-only-rule:*` and
+`C04:negative-bound-count-without-sum`, with witnesses on the real code). -/
 def RuleClean (P : Params) (fs : List Family) : Prop :=
   rulesOnly P (fs.map (fun fam => (fam, fam.samples.map (parsedOf P)))) = .ok (fs.map (expFamily P))
 
@@ -266,9 +278,8 @@ Intermediate result `doc_parse` (no rule hypothesis): `omParse (generateLatest f
 handling and the family state machine are inverse to the exposition and what is left is the rule layer on the exposed values.
 
 `_partial`, what is missing:
-* `RuleClean` is stated through the parser's own rule layer on values (decidable, evaluated on every generated case by the
-  harness through its own Python copy of the rules); its equivalence with "none of the `Spec.OMRules` predicates of C15
-  holds" is not proved;
+* the domain is "content the parser's rule layer accepts" (`RuleClean`), not "content that breaks no C15 rule": the first implies
+  the second (`ruleClean_breaks_no_c15_rule`), the parser-only rules listed at `RuleClean` are the gap;
 * `AdjDiffer` (consecutive families with different names) is required by the format (a repeated name continues the family);
   clashes through suffixes are part of `RuleClean` (`build_metric`'s seen_names).  F17 lives exactly here: the in-process
   `Histogram` with a negative first bound is `Expressible` but not `RuleClean` although it breaks no C15 rule
@@ -373,7 +384,7 @@ theorem ruleClean_breaks_no_c15_rule (P : Params) (hI : IntLaw P.pyInt) (fs : Li
     ¬ InterleavedFamilies ls ∧ ¬ ClashingFamilies ls ∧ ¬ UnitNotSuffix ls ∧ ¬ UnitOnInfoOrStateset ls ∧
     ¬ InfoNotOne P ls ∧ ¬ StatesetBadValue P ls ∧ ¬ StatesetNoLabel ls ∧ ¬ CounterLikeNaN P ls ∧ ¬ CounterLikeNegative P ls ∧
     ¬ QuantileOutOfRange P ls ∧ ¬ CountNotIntegral P ls ∧ ¬ BucketBoundNaN P ls ∧ ¬ ExemplarIneligible ls ∧
-    ¬ HistBoundsNotIncreasingDoc P ls ∧ ¬ HistCountsNotCumulativeDoc P ls := by
+    ¬ HistBoundsNotIncreasingDoc P ls ∧ ¬ HistCountsNotCumulativeDoc P ls ∧ ¬ TimestampBackwards P ls ∧ ¬ TimestampPartial ls := by
   obtain ⟨⟨hok, hadj⟩, hrc⟩ := h
   have hass : isError (assemble P (docTokens P fs)) = false := by
     rw [assemble_docTokens P hI fs hok hadj, hrc]; rfl
@@ -384,7 +395,8 @@ theorem ruleClean_breaks_no_c15_rule (P : Params) (hI : IntLaw P.pyInt) (fs : Li
     no (C15.unit_on_info_or_stateset P _), no (C15.info_not_one P _), no (C15.stateset_bad_value P _), no (C15.stateset_no_label P _),
     no (C15.counter_like_nan P _), no (C15.counter_like_negative P _), no (C15.quantile_out_of_range P _),
     no (C15.count_not_integral P _), no (C15.bucket_bound_nan P _), no (C15.exemplar_ineligible P _),
-    no (C15.hist_bounds_not_increasing P _), no (C15.hist_counts_not_cumulative P _)⟩
+    no (C15.hist_bounds_not_increasing P _), no (C15.hist_counts_not_cumulative P _), no (C15.timestamp_backwards P _),
+    no (C15.timestamp_partial P _)⟩
 
 /-- the tokenised lines of the exposed text are `docTokens` -/
 theorem om_exposition_tokens (P : Params) (hI : IntLaw P.pyInt) (fs : List Family) (h : Expressible P fs) :
@@ -394,17 +406,21 @@ theorem om_exposition_tokens (P : Params) (hI : IntLaw P.pyInt) (fs : List Famil
 
 -- the converse -------------------------------------------------------------------------------------------------------------------
 
-/-- **the converse at line level — parse ∘ render ∘ parse = parse on sample lines**: for EVERY accepted sample line
-(any text `_parse_sample` accepts), the parsed name and label dict are again in the domain of the round trip — every label name
-passed `_validate_labelname` and no name occurs twice: this is derived from acceptance, not assumed — so rendering a sample with
-that name and those labels and parsing it again gives the same name and the same label dict.
+/-- **the converse at line level, for name and labels**: for EVERY accepted sample line (any text `_parse_sample` accepts) the
+parsed label dict is again in the domain of the round trip — every label name passed `_validate_labelname` and no name occurs
+twice; this is DERIVED from acceptance (`accepted_labels_ok`), not assumed.  Hence for any sample `s` carrying the parsed name and
+label dict, the line the exposition writes for `s` parses to a sample with that same name and that same label dict, and agrees
+with `s` on value, timestamp and exemplar (`SampleMatches P s o'`).
 
-`_partial`, what is missing: the remaining fields are re-rendered through `float()`/`repr()` (an accepted `1` comes back as `1.0`),
-which the model carries as tokens, so they appear as the hypotheses `hval`, `hts`, `hex` of the line-level round trip on the
-re-rendered tokens (`hts` holds for every `Timestamp` the parser builds: `parsed_timestamp_range`, `om_reparse_timestamp` — F10, the
-predicted counter-example, is repaired: `negative_timestamp_regression`); an exemplar label set containing the metric-name slot
-(`# {"x"} 1` is accepted and parsed as `{'__name__': 'x'}`) is outside `ExOK`; a document-level statement (families, duplicate
-suppression: known finding F30 in the harness) is not proved. -/
+What this does NOT say (why `_partial`): it does not connect the value, timestamp and exemplar of `s` with those of the parsed
+sample `o` — the re-rendering of a parsed number (`1` → `repr(float(1))` = `1.0`) and of a parsed float timestamp goes through
+`float()`/`repr()`, which the model carries only as tokens; they enter as the hypotheses `hval`, `hts`, `hex` on the re-rendered
+tokens.  So "parse ∘ render ∘ parse = parse" is proved for the name and the label dict of every accepted line, and for `Timestamp`
+objects (`om_reparse_timestamp` + `parsed_timestamp_range`: every `Timestamp` the parser builds is a fixed point of
+render-then-parse); for values, float timestamps and exemplars it is the forward theorem applied to the re-rendered tokens.  An
+exemplar label set containing the metric-name slot (`# {"x"} 1` is accepted and parsed as `{'__name__': 'x'}`) is outside `ExOK`.
+No document-level converse (families, duplicate suppression: known finding F30) is proved; the harness covers parse → expose →
+parse on generated and mutated documents. -/
 theorem om_reparse_partial (P : Params) (hI : IntLaw P.pyInt) (line : Str) (o : OSample) (hacc : parseSample P line = .ok o)
     (s : Sample) (hname : s.name = o.name) (hlabels : o.labels = some s.labels)
     (hval : ∃ b, ValTok P (Utils.floatToGoString s.value) b) (hts : ∀ t, s.ts = some t → TsOK P t.ts)
